@@ -149,6 +149,23 @@ func c11mkSeq(kind string, n int) *c11seq {
 		}
 		s.val = object.NewPanArr(els...)
 		s.src = "[" + strings.Join(parts, ", ") + "]"
+	case "arrnil":
+		// every second element is nil: a nil element is an element like any other
+		var els []object.PanObject
+		var parts []string
+		for i := 0; i < n; i++ {
+			v := int64(100 + i)
+			s.elems = append(s.elems, v)
+			if i%2 == 1 {
+				els = append(els, object.BuiltInNil)
+				parts = append(parts, "nil")
+			} else {
+				els = append(els, object.NewPanInt(v))
+				parts = append(parts, fmt.Sprint(v))
+			}
+		}
+		s.val = object.NewPanArr(els...)
+		s.src = "[" + strings.Join(parts, ", ") + "]"
 	case "ascii":
 		s.runes = []rune("abcdefghij")[:n]
 		s.val = object.NewPanStr(string(s.runes))
@@ -168,6 +185,20 @@ func (s *c11seq) judgeSlice(o *interp.Obs, want []int64) (symptom, detail string
 	}
 	if o.Err != nil {
 		return "unexpected-error", o.Outcome()
+	}
+	if s.kind == "arrnil" {
+		var parts []string
+		for _, p := range want {
+			if p%2 == 1 {
+				parts = append(parts, "nil")
+			} else {
+				parts = append(parts, fmt.Sprint(s.elems[p]))
+			}
+		}
+		if exp := "[" + strings.Join(parts, ", ") + "]"; o.Inspect != exp {
+			return "wrong-elements", fmt.Sprintf("got %s, want %s (positions %v)", o.Inspect, exp, want)
+		}
+		return "", ""
 	}
 	if s.kind == "arr" {
 		arr, ok := o.Val.(*object.PanArr)
@@ -261,7 +292,7 @@ func runC11(w *fw.W) {
 			tIdx = interp.MustTemplate("s[i]")
 		}
 	}
-	kinds := []string{"arr", "ascii", "multi"}
+	kinds := []string{"arr", "ascii", "multi", "arrnil"}
 	for _, kind := range kinds {
 		for n := 0; n <= N; n++ {
 			take := w.Take()
@@ -270,6 +301,7 @@ func runC11(w *fw.W) {
 			}
 			setup()
 			seq := c11mkSeq(kind, n)
+			aux := c11mkSeq("arr", (n+3)%(N+1))
 			w.Begin(fmt.Sprintf("cube %s n=%d", kind, n), map[string]any{"kind": kind, "n": n, "seq": seq.src})
 			dk := map[string]struct{}{}
 			var viol []fw.SubViolation
@@ -300,6 +332,11 @@ func runC11(w *fw.W) {
 				if inRange {
 					if kind == "arr" {
 						want = fmt.Sprint(seq.elems[pos])
+					} else if kind == "arrnil" {
+						want = fmt.Sprint(seq.elems[pos])
+						if pos%2 == 1 {
+							want = "nil"
+						}
 					} else {
 						want = `"` + string(seq.runes[pos]) + `"`
 					}
@@ -315,6 +352,14 @@ func runC11(w *fw.W) {
 					for _, c := range steps {
 						w.Note(fmt.Sprintf("%s[%s:%s:%s]", seq.src, a, b, c))
 						r := object.NewPanRange(a.obj(), b.obj(), c.obj())
+						// the same range value is first used on a sequence of another length (a range does not remember a sequence)
+						if c.nil || c.v != 0 {
+							ao := ip.EvalT(tSlice, map[string]object.PanObject{"s": aux.val, "r": r}, 0)
+							evals++
+							if sym, det := aux.judgeSlice(ao, refSlice(a, b, c, int64(aux.n))); sym != "" {
+								report("C11|slice|aux|"+sym, fmt.Sprintf("%s[%s:%s:%s]: %s", aux.src, a, b, c, det), aux.src)
+							}
+						}
 						o := ip.EvalT(tSlice, map[string]object.PanObject{"s": seq.val, "r": r}, 0)
 						evals++
 						src := fmt.Sprintf("%s[%s:%s:%s]", seq.src, a, b, c)
@@ -372,7 +417,7 @@ func runC11(w *fw.W) {
 		dk := map[string]struct{}{}
 		var sample string
 		for j := 0; j < batch; j++ {
-			kind := kinds[rng.Intn(3)]
+			kind := kinds[rng.Intn(len(kinds))]
 			n := rng.Intn(N + 1)
 			seq := c11mkSeq(kind, n)
 			a, b, c := W[rng.Intn(len(W))], W[rng.Intn(len(W))], W[rng.Intn(len(W))]
